@@ -811,4 +811,107 @@ theorem rootListOK_d_zero (q0 q1 q2 q3 : Pt ℝ) (cd : List ℝ)
       exact (hmem t).mpr ⟨⟨le_of_lt t0, le_of_lt t1⟩, hr', htype t hr' hdv⟩
     · intro ht; rw [hpoly]; exact ((hmem t).mp ht).2.1
 
+/-- the y-polynomial the root finder is run on, for an aligned copy of either kind -/
+noncomputable def ypolySeg : Seg ℝ → ℝ → ℝ
+  | Seg.cubic q0 q1 q2 q3, t => ypoly q0 q1 q2 q3 t
+  | Seg.quad q0 q1 q2, t => ypolyQ q0 q1 q2 t
+  | Seg.line _ _, _ => 1
+
+/-- the conditions under which the root finder's list is exactly the crossings, per kind and branch -/
+def SegOK : Seg ℝ → List ℝ → Prop
+  | Seg.cubic q0 q1 q2 q3, cd =>
+    (CardanoOK q0 q1 q2 q3 ∧
+      cd = cubic_cardano_roots Real.pi Real.sqrt Real.cos Real.arccos Real.rpow q0.x q0.y q1.x q1.y q2.x q2.y q3.x q3.y) ∨
+    (cubic_rootcoeffs_y_d q0.x q0.y q1.x q1.y q2.x q2.y q3.x q3.y = 0 ∧
+      (∀ t, 0 ≤ t → t ≤ 1 → ypoly q0 q1 q2 q3 t = 0 → ypoly' q0 q1 q2 q3 t ≠ 0) ∧ ypoly q0 q1 q2 q3 0 ≠ 0 ∧ ypoly q0 q1 q2 q3 1 ≠ 0)
+  | Seg.quad q0 q1 q2, cd => QuadOK q0 q1 q2 ∧ cd = []
+  | Seg.line _ _, _ => False
+
+theorem rootListOK_of_segOK (al : Seg ℝ) (cd : List ℝ) (ok : SegOK al cd) : RootListOK al cd (ypolySeg al) := by
+  cases al with
+  | line _ _ => exact absurd ok (by simp [SegOK])
+  | quad q0 q1 q2 =>
+    obtain ⟨h, rfl⟩ := ok
+    exact rootListOK_quad q0 q1 q2 h
+  | cubic q0 q1 q2 q3 =>
+    rcases ok with ⟨h, rfl⟩ | ⟨hd, hs, e0, e1⟩
+    · exact rootListOK_cardano q0 q1 q2 q3 h
+    · exact rootListOK_d_zero q0 q1 q2 q3 cd hd hs e0 e1
+
+/-- for a horizontal ray the regenerated alignment (real cos, sin, atan2) sends the level of the ray, and nothing else, to y = 0 -/
+theorem cross_horizontal (x0 py px X Y : ℝ) (hne : px - x0 ≠ 0) : C05.cross x0 py px py X Y = 0 ↔ Y = py := by
+  unfold C05.cross
+  constructor
+  · intro h
+    have : (px - x0) * (Y - py) = 0 := by linarith
+    rcases mul_eq_zero.mp this with h | h
+    · exact absurd h hne
+    · linarith
+  · intro h; rw [h]; ring
+
+theorem ypolySeg_alignedCubic (x0 py px : ℝ) (a b c d : Pt ℝ) (hne : px - x0 ≠ 0) (t : ℝ) :
+    ypolySeg (C05.alignedCubic x0 py px py a b c d) t = 0 ↔ ((Seg.cubic a b c d).eval t).y = py := by
+  unfold C05.alignedCubic
+  simp only [ypolySeg, ypoly]
+  rw [C05.cubic_rootcoeffs_spec, C05.cubic_transformed_eval_y, C05.aligned_y_zero_iff _ _ _ _ _ _ (Or.inl hne)]
+  exact cross_horizontal x0 py px _ _ hne
+
+theorem ypolySeg_alignedQuad (x0 py px : ℝ) (a b c : Pt ℝ) (hne : px - x0 ≠ 0) (t : ℝ) :
+    ypolySeg (C05.alignedQuad x0 py px py a b c) t = 0 ↔ ((Seg.quad a b c).eval t).y = py := by
+  unfold C05.alignedQuad
+  simp only [ypolySeg, ypolyQ]
+  rw [C05.quad_rootcoeffs_spec, C05.quad_transformed_eval_y, C05.aligned_y_zero_iff _ _ _ _ _ _ (Or.inl hne)]
+  exact cross_horizontal x0 py px _ _ hne
+
+/-- `s.aligned()` for the ray from (x0, py) to (px, py), as the regenerated code computes it -/
+noncomputable def alignedTo (x0 py px : ℝ) : Seg ℝ → Seg ℝ
+  | Seg.cubic a b c d => C05.alignedCubic x0 py px py a b c d
+  | Seg.quad a b c => C05.alignedQuad x0 py px py a b c
+  | s => s
+
+theorem ypolySeg_alignedTo (x0 py px : ℝ) (s : Seg ℝ) (hs : 2 < s.order) (hne : px - x0 ≠ 0) (t : ℝ) :
+    ypolySeg (alignedTo x0 py px s) t = 0 ↔ (s.eval t).y = py := by
+  cases s with
+  | line _ _ => simp [Seg.order, Seg.points] at hs
+  | quad a b c => exact ypolySeg_alignedQuad x0 py px a b c hne t
+  | cubic a b c d => exact ypolySeg_alignedCubic x0 py px a b c d hne t
+
+/-- **(Hseg) for every curved segment, with the aligned copies computed by the regenerated `alignmentTransformation`/`transformed`**:
+    no hypothesis about the root finder or about the alignment is left; what remains is the position of the query point (clear of the
+    rays' ends and of the range filter's boundary), simple crossings, and that each aligned copy is in one of the three proved
+    branches (`SegOK`: Cardano branch, vanishing cubic coefficient, quadratic) -/
+theorem curve_hseg_aligned (s : Seg ℝ) (hs : 2 < s.order) (lx px rx py : ℝ) (cdL cdR : List ℝ)
+    (okL : SegOK (alignedTo lx py px s) cdL) (okR : SegOK (alignedTo rx py px s) cdR)
+    (hl : ¬ isclose px lx ((1 : ℝ) / 1000000000) 0) (hr : ¬ isclose px rx ((1 : ℝ) / 1000000000) 0) (hlx : lx < px) (hrx : px < rx)
+    (hsimple : ∀ t, 0 < t → t < 1 → (s.eval t).y = py →
+      (C02E.dcoeffs s).2.1 * t * t + (C02E.dcoeffs s).2.2.1 * t + (C02E.dcoeffs s).2.2.2 ≠ 0)
+    (h0 : s.start.y ≠ py) (h1 : s.end.y ≠ py)
+    (hclear : ∀ t, 0 < t → t < 1 → (s.eval t).y = py → within t = true ∧ PClear lx px rx (s.eval t).x) :
+    ((segHits Real.sqrt s lx px py (alignedTo lx py px s) cdL).length +
+      (segHits Real.sqrt s rx px py (alignedTo rx py px s) cdR).length) % 2 =
+      if Straddle s.start.y s.end.y py then 1 else 0 :=
+  curve_hseg_of_lists s hs lx px rx py _ _ cdL cdR _ _ (rootListOK_of_segOK _ _ okL) (rootListOK_of_segOK _ _ okR)
+    (ypolySeg_alignedTo lx py px s hs (by linarith)) (ypolySeg_alignedTo rx py px s hs (by linarith))
+    hl hr (by linarith) hsimple h0 h1 hclear
+
+/-- the hypotheses are satisfiable: a quadratic aligned copy (y = -1 + 4t crosses the level once, simply) … -/
+example : SegOK (Seg.quad ⟨0, -1⟩ ⟨1, 1⟩ ⟨2, 3⟩) [] := by
+  refine ⟨⟨?_, ?_, ?_⟩, rfl⟩
+  · intro t _ _ _
+    simp only [quad_rootcoeffs_y_a, quad_rootcoeffs_y_b]; norm_num
+  · simp only [ypolyQ, quad_rootcoeffs_y_a, quad_rootcoeffs_y_b, quad_rootcoeffs_y_c]; norm_num
+  · simp only [ypolyQ, quad_rootcoeffs_y_a, quad_rootcoeffs_y_b, quad_rootcoeffs_y_c]; norm_num
+
+/-- … and a cubic aligned copy in the vanishing-cubic-coefficient branch (y = -1 + 6t - 6t², two simple crossings) -/
+example : SegOK (Seg.cubic ⟨0, -1⟩ ⟨1, 1⟩ ⟨2, 1⟩ ⟨3, -1⟩) [] := by
+  right
+  refine ⟨?_, ?_, ?_, ?_⟩
+  · simp only [cubic_rootcoeffs_y_d]; norm_num
+  · intro t _ _ h h'
+    simp only [ypoly, ypoly', cubic_rootcoeffs_y_a, cubic_rootcoeffs_y_b, cubic_rootcoeffs_y_c, cubic_rootcoeffs_y_d] at h h'
+    have ht : t = 1 / 2 := by linarith
+    subst ht; norm_num at h
+  · simp only [ypoly, cubic_rootcoeffs_y_a, cubic_rootcoeffs_y_b, cubic_rootcoeffs_y_c, cubic_rootcoeffs_y_d]; norm_num
+  · simp only [ypoly, cubic_rootcoeffs_y_a, cubic_rootcoeffs_y_b, cubic_rootcoeffs_y_c, cubic_rootcoeffs_y_d]; norm_num
+
 end C11B
